@@ -1,5 +1,6 @@
 import ReplicatProofs.Lemmas.Options
 import ReplicatProofs.Lemmas.OptionsCustom
+import ReplicatProofs.Lemmas.OptionsClass
 /-!
 # C19 — option precedence: command line > environment > profile > default section > built-in
 
@@ -29,6 +30,14 @@ Full statement / what is proved:
   (`Gen.optBackendCliTy` from the live parsers of all probed backends incl. the annotated probe `vfa`;
   `Gen.optBackendFileTy` / `Gen.optBackendEnvTy` from the AST).  `backend_rows_follow_schema` — every backend row of the
   generated table is an instance of that schema.
+* `env_name_never_inherited`, `env_name_documented`, `precedence_class_backend_partial`, `shipped_backend_env_names` —
+  CLASS HIERARCHIES of backends (a backend class that derives from another concrete backend: the shipped `S3`, custom
+  backends derived from `Local` / `S3Compatible` / `B2` / another custom backend, two or more levels, with or without the
+  class keyword `short_name=`, with a plain `short_name` class attribute): the environment variable of every option is
+  computed from the class's OWN declaration (`Options.backendEnvVar` interpreting `Gen.optShortNameRule`, the fallback of
+  `Backend.__init_subclass__` read from the AST) and never from a base class; the row of such an option is an instance of the
+  schema, so precedence holds for it as for any backend; the variables in the generated table (live parsers) are the ones the
+  model computes from the shipped class declarations (ASTs).
 -/
 namespace Replicat.C19
 open Replicat Replicat.Gen Replicat.Options
@@ -277,6 +286,62 @@ theorem coercion_uniform_any_backend_partial (sem : Sem V) (cmd : OptCommand) (h
   obtain ⟨hc, hp, _⟩ := cmds_ok cmd hcmd
   exact coercion_uniform_wfBackend sem cmd hc hp _ rfl (wfBackend_custom owner dest flag envVar key bk) r x b hr hx hidem
 
+/-! ## class hierarchies of backends: the environment variable of an option belongs to the class the user names -/
+
+/-- **Own name, never inherited.**  For every backend class `c`, whatever classes it derives from (`ps`, `ps'`: `Local`,
+`S3Compatible`, another custom backend, any depth, however THEY are declared) and every option: the environment variable
+`config.backend_env_option` computes is the same, and it is `<N>_<OPTION>` upper-cased for a name `N` that `c` declares itself
+(class keyword, plain class attribute or class name).  Discharged from the extracted `Gen.optShortNameRule`: a fallback that
+can see the `short_name` stored on a base class (`getattr(cls, 'short_name', …)`) or an unrecognised one makes this stop
+compiling. -/
+theorem env_name_never_inherited (c : BackendClass) (ps ps' : List BackendClass) (opt : String) :
+    backendEnvVar optShortNameRule (c :: ps) opt = backendEnvVar optShortNameRule (c :: ps') opt ∧
+    ∃ s ∈ ownNames c, backendEnvVar optShortNameRule (c :: ps) opt = some (backendEnvName s opt) := by
+  have hown : ruleIsOwn optShortNameRule = true := by decide
+  have hjoin : optBackendEnvJoinRecognised = true := by decide
+  refine ⟨by simp [backendEnvVar, shortNameOf_own _ hown c ps ps'], ?_⟩
+  obtain ⟨s, hs, h⟩ := shortNameOf_mem_own _ hown c ps
+  exact ⟨s, hs, by simp [backendEnvVar, hjoin, h]⟩
+
+/-- **The documented name.**  README ("Custom backends"): `<SHORT NAME>_<OPTION>` in upper case, where the short name is the
+class keyword `short_name=` when the class has one and the CLASS NAME otherwise (`PROUDCLOUD_ACCOUNT_ID`) — for a class at
+any depth of a hierarchy.  (A class that also sets a plain `short_name` attribute in its body is covered by
+`env_name_never_inherited` only.) -/
+theorem env_name_documented (c : BackendClass) (ha : c.attrShort = none) (ps : List BackendClass) (opt : String) :
+    backendEnvVar optShortNameRule (c :: ps) opt = some (backendEnvName (documentedShortName c) opt) := by
+  have hown : ruleIsOwn optShortNameRule = true := by decide
+  have hjoin : optBackendEnvJoinRecognised = true := by decide
+  simp [backendEnvVar, hjoin, shortNameOf_documented _ hown c ha ps]
+
+/-- **Precedence for the options of a class in a hierarchy (partial).**  The row of option `dest` of backend class `c` — flag
+and file key from the parameter name, environment variable from the class — exists, is the same whatever `c` derives from,
+carries an environment variable of `c`'s own, and satisfies the precedence statement of `precedence_any_backend_partial`
+(same two hypotheses: D14, D15). -/
+theorem precedence_class_backend_partial (sem : Sem V) (cmd : OptCommand) (hcmd : cmd ∈ optCommands)
+    (c : BackendClass) (ps : List BackendClass) (owner dest : String) (bk : Nat) :
+    ∃ row, classBackendRow optShortNameRule (c :: ps) owner dest bk = some row ∧
+      (∀ ps', classBackendRow optShortNameRule (c :: ps') owner dest bk = some row) ∧
+      (∃ s ∈ ownNames c, row.env = some (backendEnvName s dest, optBackendEnvTy)) ∧
+      ∀ s : Simple V, valid sem row s = true → TypedValuesKept sem row s →
+        (s.cli = none → ∀ v, specBelowCli sem row s = .ok v → sem.isStr v = true → sem.co .guessType v = some v) →
+        pipelineFinal sem cmd row s.toInputs = spec sem row s := by
+  obtain ⟨hsame, n, hn, henv⟩ := env_name_never_inherited c ps ps dest
+  refine ⟨customBackendRow owner dest ("--" ++ hyphenated dest) (backendEnvName n dest) (hyphenated dest) bk, ?_, ?_, ?_, ?_⟩
+  · simp [classBackendRow, henv]
+  · intro ps'
+    have h := (env_name_never_inherited c ps' ps dest).1
+    simp [classBackendRow, h, henv]
+  · exact ⟨n, hn, rfl⟩
+  · intro s hv hstr hidem
+    exact precedence_any_backend_partial sem cmd hcmd owner dest _ _ _ bk s hv hstr hidem
+
+/-- **The shipped hierarchy.**  Every backend-specific row of the generated table (environment variable taken from the LIVE
+parsers) that belongs to a shipped backend — `S3`, which derives from `S3Compatible`, included — carries the variable the
+model computes from that backend's class declarations (`Gen.optShippedBackendClasses`, read from the ASTs of
+`replicat/backends/*.py`). -/
+theorem shipped_backend_env_names : shippedEnvNamesAgree optShortNameRule = true := by
+  decide
+
 /-! ## negation witnesses: the full statement is false of the model (and, replayed by the harness, of the code) -/
 
 
@@ -376,6 +441,22 @@ example :
      pipelineFinal toySem cmd0 pcAccountId viaProf.toInputs = .ok (.int 9877) ∧
      pipelineFinal toySem cmd0 pcAccountId viaDflt.toInputs = .ok (.int 9877)) ∧
     optBackendAnnotatedProbes ≥ 10 ∧ (optRows.filter (fun r => r.owner == "vfa")).length ≥ 10 := by
+  decide
+
+/-- class hierarchies: the shipped table has a two-level chain with differing names (`S3` < `S3Compatible` [`S3C`]) and rows
+for it; the README's `ProudCloud` derived from `Local` reads `PROUDCLOUD_ACCOUNT_ID`; and the model IS sensitive to the rule —
+under a fallback that sees the parent's stored attribute the same class would read `LOCAL_ACCOUNT_ID`, a keyword-less class
+derived from `S3Compatible` would read `S3C_…` -/
+example :
+    (∃ mc ∈ optShippedBackendClasses, mc.2.length ≥ 2 ∧ ∃ row ∈ optRows, row.scope = 2 ∧ row.owner = mc.1 ∧
+      backendEnvVar optShortNameRule (mc.2.map classOfDecl) row.dest ≠
+        backendEnvVar optShortNameRule ((mc.2.map classOfDecl).drop 1) row.dest) ∧
+    backendEnvVar optShortNameRule [⟨"ProudCloud", none, none⟩, ⟨"Local", none, none⟩] "account_id" = some "PROUDCLOUD_ACCOUNT_ID" ∧
+    backendEnvVar .inheritedAttr [⟨"ProudCloud", none, none⟩, ⟨"Local", none, none⟩] "account_id" = some "LOCAL_ACCOUNT_ID" ∧
+    backendEnvVar .inheritedAttr [⟨"Cold", none, none⟩, ⟨"Mid", none, none⟩, ⟨"S3Compatible", some "S3C", none⟩] "key_id" = some "S3C_KEY_ID" ∧
+    backendEnvVar .inheritedAttr [⟨"Cold", some "cs", none⟩, ⟨"S3Compatible", some "S3C", none⟩] "key_id" = some "CS_KEY_ID" ∧
+    (classBackendRow optShortNameRule [⟨"Cold", none, none⟩, ⟨"B2", none, some "bb"⟩] "cold" "max_conn" 4).map (fun r => (r.cli.map (·.flag), r.env.map (·.1), r.file.map (·.key)))
+      = some (["--max-conn"], some "COLD_MAX_CONN", ["max-conn"]) := by
   decide
 
 /-- every sub-command and at least 50 option rows are covered -/
